@@ -22,7 +22,7 @@ def _collect(rep, results, name):
 def run(tier, rep):
     srcs = all_sources(tier, seed())
     tasks = [dict(src=s, s_init=True) for s in srcs]
-    with Pool() as pool:
+    with Pool(maxtasks=10) as pool:
         results = list(pool.imap("vf.compiled_tasks", "c07_task", tasks))
     _collect(rep, results, "schedules")
     for r in results[:3]:
